@@ -109,13 +109,62 @@ func globMatch(pat, path string) bool {
 		if j == len(ss) {
 			return false
 		}
-		re := "^" + strings.ReplaceAll(regexp.QuoteMeta(ps[i]), `\*`, `[^/]*`) + "$"
-		if ok, _ := regexp.MatchString(re, ss[j]); !ok {
+		if ok, _ := regexp.MatchString(segmentRegexp(ps[i]), ss[j]); !ok {
 			return false
 		}
 		return rec(i+1, j+1)
 	}
 	return rec(0, 0)
+}
+
+// segmentRegexp translates one path segment of a glob (documented syntax: * ? [abc] [a-z] [!abc]
+// [^abc] {alt1,alt2}, backslash escapes) into a regular expression.
+func segmentRegexp(seg string) string {
+	var b strings.Builder
+	b.WriteString("^")
+	depth := 0
+	for i := 0; i < len(seg); i++ {
+		c := seg[i]
+		switch {
+		case c == '\\' && i+1 < len(seg):
+			i++
+			b.WriteString(regexp.QuoteMeta(string(seg[i])))
+		case c == '*':
+			b.WriteString("[^/]*")
+		case c == '?':
+			b.WriteString("[^/]")
+		case c == '[':
+			j := strings.IndexByte(seg[i+1:], ']')
+			if j < 0 {
+				b.WriteString(`\[`)
+				continue
+			}
+			body := seg[i+1 : i+1+j]
+			neg := false
+			if strings.HasPrefix(body, "!") || strings.HasPrefix(body, "^") {
+				neg, body = true, body[1:]
+			}
+			b.WriteString("[")
+			if neg {
+				b.WriteString("^")
+			}
+			b.WriteString(strings.NewReplacer(`\`, `\\`, "[", `\[`, "^", `\^`).Replace(body))
+			b.WriteString("]")
+			i += j + 1
+		case c == '{':
+			depth++
+			b.WriteString("(?:")
+		case c == '}' && depth > 0:
+			depth--
+			b.WriteString(")")
+		case c == ',' && depth > 0:
+			b.WriteString("|")
+		default:
+			b.WriteString(regexp.QuoteMeta(string(c)))
+		}
+	}
+	b.WriteString("$")
+	return b.String()
 }
 
 func diagsString(ds []c15Diag) string {
@@ -362,7 +411,7 @@ func TestC15(t *testing.T) {
 		t.Fatalf("actionlint binary not built: %v", err)
 	}
 	hx.Main(t, "C15", func(r *hx.Run) {
-		r.Rule = "temporary world: a repository (optionally nested two levels down, optionally next to a sibling repository whose name shares its prefix and whose configuration ignores everything) with a workflow producing 0-8 distinct diagnostics (now and then a file that is not YAML, not a mapping, or has no jobs), a configuration with 0-3 `paths` globs (matching all yaml, the workflows directory, the exact file, nothing) each with ignore regexes, and 0-3 -ignore regexes; regexes are escaped fragments of the unfiltered messages (matching none/some/all), also with inline flags such as (?i). Each world is run through the built actionlint binary from 16 (cwd, path spelling) combinations: repository root / parent / nested / unrelated directory x relative / ./ / absolute / no argument, plus four spellings through a symbolic link to the repository root; when a sibling repository exists, also the observed file together with a file of the sibling in one invocation (both orders). Oracle: output = unfiltered list (same world without configuration and -ignore) minus messages matched by an applicable pattern (glob matched against the repository-relative path by the harness), identical for all combinations; exit status 1 iff diagnostics remain, 0 iff none, 3 for an invalid regex, 2 for an invalid flag. Non-trivial = >= 1 diagnostic removed and >= 1 kept, or a matching `paths` glob with cwd != repository root; distinct = case hash."
+		r.Rule = "temporary world: a repository (optionally nested two levels down, optionally next to a sibling repository whose name shares its prefix and whose configuration ignores everything) with a workflow producing 0-8 distinct diagnostics (now and then a file that is not YAML, not a mapping, or has no jobs), a configuration with 0-3 `paths` globs (matching all yaml, the workflows directory, the exact file, nothing; with *, **, ?, [a-c], [!x] and {a,b} forms) each with ignore regexes, and 0-3 -ignore regexes; regexes are escaped fragments of the unfiltered messages (matching none/some/all), also with inline flags such as (?i). Each world is run through the built actionlint binary from 16 (cwd, path spelling) combinations: repository root / parent / nested / unrelated directory x relative / ./ / absolute / no argument, plus four spellings through a symbolic link to the repository root; when a sibling repository exists, also the observed file together with a file of the sibling in one invocation (both orders). Oracle: output = unfiltered list (same world without configuration and -ignore) minus messages matched by an applicable pattern (glob matched against the repository-relative path by the harness), identical for all combinations; exit status 1 iff diagnostics remain, 0 iff none, 3 for an invalid regex, 2 for an invalid flag. Non-trivial = >= 1 diagnostic removed and >= 1 kept, or a matching `paths` glob with cwd != repository root; distinct = case hash."
 		r.Assumptions = []string{"file names are plain ASCII", "regexes are built from escaped message fragments so that the reference (Go regexp on messages) cannot disagree about regexp semantics"}
 		r.Check(t, "worlds", hx.N(150, 4000), func(rt *rapid.T) {
 			var wfb strings.Builder
@@ -434,7 +483,7 @@ func TestC15(t *testing.T) {
 			for i := 0; i < rapid.IntRange(0, 3).Draw(rt, "ncli"); i++ {
 				c.CLIIgnore = append(c.CLIIgnore, mkRegex())
 			}
-			globs := []string{"**/*.yaml", "**/*.yml", ".github/workflows/*.yml", ".github/workflows/*", c.File, "nomatch/**", ".github/**/*.y*ml", "*.yml", "**/ci.yml"}
+			globs := []string{"**/*.yaml", "**/*.yml", ".github/workflows/*.yml", ".github/workflows/*", c.File, "nomatch/**", ".github/**/*.y*ml", "*.yml", "**/ci.yml", ".github/workflows/*.{yml,yaml}", ".github/workflows/{ci,build,a-b}.y*", ".github/workflows/[!x]*.yml", ".github/workflows/[a-c]?*.y[a-z]*", ".github/workflows/[!a-c]*", "**/*.{yml,yaml}", ".github/workflows/c?.yml"}
 			seen := map[string]bool{}
 			for i := 0; i < rapid.IntRange(0, 3).Draw(rt, "npaths"); i++ {
 				g := rapid.SampledFrom(globs).Draw(rt, "glob")
